@@ -330,6 +330,7 @@ class World:
                 self.log.emit('Crash', how=behaviour['crash'], where=where)
                 crash(behaviour['crash'])
             if 'barrier_wait' in behaviour:
+                self.log.emit('Wait', t='', name=behaviour['barrier_wait'])
                 barrier_wait(behaviour['barrier_wait'])
                 return
             behaviour = behaviour.get('then', 'ok')
@@ -562,6 +563,7 @@ class World:
             elif kind == 'signal':
                 barrier_signal(a['name'])
             elif kind == 'wait':
+                self.log.emit('Wait', t=tid, name=a['name'])
                 ok = barrier_wait(a['name'], a.get('timeout', 120.0))
                 if not ok:
                     self.log.emit('BarrierTimeout', t=tid, name=a['name'])
